@@ -575,10 +575,19 @@ def run_t5(repo: Repo, res: Result) -> None:
                         if term[1] != "startswith" or len(term) < 4 or not _safe_prefix_needle(term[3]):
                             node = info.get("node")
                             problems.append(f"`{ast.unparse(node) if node is not None else a}` is not bounded by the dot separator: a sibling such as `pkg.utils` is dropped as if it were a sub module of `pkg.util`")
-                    elif k == "eq":
-                        continue
+                    elif k == "eq" and all(_plain_name(t_) or _safe_prefix_needle(t_) for t_ in info.get("terms", ())):
+                        continue  # equality of two whole names (or of a name part with `<name>.`)
                     else:
                         unknown.append(a)
+                if unknown and not problems:
+                    # tests of another shape (split / parents / slices): ask the shared F-NAME classification about the functions involved
+                    verdicts = _fname_verdicts(repo, [I.atom_info.get(a, {}).get("fi") for a in unknown], run)
+                    if verdicts.get("unsafe"):
+                        problems += [f"{w} (F-NAME)" for w in verdicts["unsafe"][:2]]
+                    elif not verdicts.get("unknown"):
+                        # no string-relational operation on module names is left unexplained in the functions involved: the
+                        # remaining tests compare whole names (equality / set membership, e.g. against get_parent_modules(..))
+                        unknown = []
                 fi, node = subj_made_at(I, subj, aa)
                 cons = f"{fi.relpath}::{fi.qualname}::alias subjects [{tag} anything]"
                 if not okx:
@@ -594,6 +603,32 @@ def run_t5(repo: Repo, res: Result) -> None:
         asked = {"explicit" if q.name == EXPLICIT_QUERY else "other" for q in run.queries if _sat(assign_atoms(q.guard, zero))}
         ok = asked == {"other"}
         res.add("C01.T5", f"{aa.relpath}::{aa.qualname}::alias rewrite [{tag} anything: question]", ok, f"'should not {tag} anything' asks {sorted(asked)}" + ("" if ok else ", expected the 'other' question only (neg(any edge))"), where(aa, aa.node), kind="decision-table")
+
+
+def _plain_name(t) -> bool:
+    """`<element of the subjects>.identifier` (or another attribute of it): a whole module name."""
+    return isinstance(t, tuple) and len(t) == 3 and t[0] == "attr" and isinstance(t[1], tuple) and t[1] and t[1][0] == "elem"
+
+
+def _fname_verdicts(repo: Repo, funcs: list, run: Run) -> dict:
+    """Verdicts of the shared F-NAME lint (rules/names.py) on the name-relational sites of the given functions (or, when the
+    function of a test is unknown, of every Rule function the alias evaluation went through)."""
+    from . import names
+
+    fqs = {f.fq for f in funcs if f is not None}
+    if not fqs or any(f is None for f in funcs):
+        fqs |= {fq for fq in run.interp.frames_of if ("::Rule." in fq or "::Rule::" in fq)}
+    out: dict = {}
+    try:
+        for s_ in names.scan(repo):
+            top = s_.fi
+            while top.outer is not None and top.fq not in fqs:
+                top = top.outer
+            if top.fq in fqs and s_.name_typed:
+                out.setdefault("unsafe" if s_.verdict == "unsafe" else "safe" if s_.verdict in ("safe", "reviewed", "not-name") else "unknown", []).append(s_.why)
+    except AnalysisError:
+        return {"unknown": ["F-NAME scan failed"]}
+    return out
 
 
 def subj_made_at(I: Interp, coll: Coll, fallback: FuncInfo):
